@@ -95,7 +95,8 @@ NL = ["\n", "\r\n", "\r"]
 def _le_free(params):
     fr = scaffold_frees(params["scaffold"], params.get("spec", {}))
     for i in range(params["nlines"]):
-        fr.append(Free(f"nl{i}", kind="int", lo=0, hi=2))
+        fixed = params.get("nl0") if i == 0 else None
+        fr.append(Free(f"nl{i}", kind="int", lo=0 if fixed is None else fixed, hi=2 if fixed is None else fixed))
     return fr
 
 
@@ -308,8 +309,9 @@ def jobs(tier, seed):
     if tier == "quick":
         le_docs = [[{"v": "a"}, "<NL>", "b", "<NL>"], ["- a", "<NL>", "  ", {"v": "a"}, "<NL>"], ["```", "<NL>", {"v": "a"}, "<NL>", "```"], ["> ", {"v": "a"}, "<NL>", "<NL>", "b"]]
     for sc in le_docs:
-        jobs.append({"harness": "line_endings", "params": {"cfg": JS, "scaffold": sc, "nlines": sc.count("<NL>"), "spec": spec},
-                     "weight": 8, "cpu_cap": 2400, "wall_cap": 3600})
+        for nl0 in (0, 1, 2):
+            jobs.append({"harness": "line_endings", "params": {"cfg": JS, "scaffold": sc, "nlines": sc.count("<NL>"), "spec": spec, "nl0": nl0},
+                         "weight": 8, "cpu_cap": 2400, "wall_cap": 3600})
     nul_docs = [[{"v": "a"}, "<NUL>", {"v": "b"}, "\n"], ["# <NUL>", {"v": "a"}, "\n\n`<NUL>`\n"], ["[", {"v": "a"}, "<NUL>](/u<NUL>)\n"]]
     if tier == "quick":
         nul_docs = [[{"v": "a"}, "<NUL>b\n"], ["# <NUL>", {"v": "a"}, "\n\n`<NUL>`\n"]]  # the link document (~100 CPU-s per path) is thorough-only
